@@ -183,8 +183,11 @@ def observe_match(c):
         N = 1
     else:
         gts, prs, N = c["gts"], c["prs"], c["N"]
-    fg = U.build_frame(gts, 0, N)
-    fp = U.build_frame(prs, 0, N, scores=c["sc"])
+    # real geometry, every other case: a missing node keeps stale coordinates in the instance and is flagged not visible (what
+    # the GUI stores for a hidden node) - Instance.numpy() says NaN, it is exactly as missing as before
+    stale = (not stub) and (G + P + len(c["sc"]) + int(sum(c["sc"]))) % 2 == 1
+    fg = U.build_frame(gts, 0, N, stale=stale)
+    fp = U.build_frame(prs, 0, N, scores=c["sc"], stale=stale)
     c["raised"] = ""
     c["reply"] = dict(pairs=[], fn=[])
     orig = E.compute_oks
